@@ -20,7 +20,7 @@ from vlib import Infra
 PROPS = {
     "C06": (["accepted", "failed"], ["Exact"]),
     "C07": (["accepted", "failed", "hostile", "mutants", "noise", "pids"],
-            ["Framed", "FramedExact", "FramedUniversal", "FramedPeer", "FifoEq"]),
+            ["Framed", "FramedExact", "FramedUniversal", "FramedPeer", "FifoEq", "AuditNewline"]),
     "C11": (["accepted", "failed", "hostile", "mutants", "noise", "pids"], ["Universal"]),
     "C17": (["hostile"], ["Peer"]),
     "C19": (["accepted", "failed", "hostile", "mutants", "noise", "pids"], ["Counter"]),
@@ -163,11 +163,24 @@ def run(ctx, prop):
         conc = 4
     tp, stats = run_vectors(ctx, vecs, conc, fifo_every=(1 if prop == "C07" else 0))
     bad, nlines, states = validate(ctx, tp, "main")
+    nl_lines = 0
+    if prop == "C07":
+        # audit half: generated audit record lines with and without the trailing newline
+        nb = ctx.go_build("./cmd/auditnl")
+        ntp = ctx.path("trace-auditnl.ndjson")
+        pr = ctx.run([nb, "-out", ntp, "-seed", str(ctx.seed), "-n", "400" if ctx.quick else "5000"], timeout=600)
+        nl_lines = json.loads(pr.stdout.strip().splitlines()[-1])["lines"]
+        nbad, _, _ = validate(ctx, ntp, "auditnl", parts=2)
+        for b in nbad:
+            r = b["rec"]
+            ctx.violation("AuditNewline", "audit record line parses differently with its trailing newline: %r (errors %s / %s)"
+                          % (r["line"][:300], r["err1"], r["err2"]), {"kind": "audit-line", "line": r["line"]})
     nself = selftest(ctx, tp, preds)
     mine = [b for b in bad if b["what"] in preds]
     groups = collections.defaultdict(list)
     for b in mine:
         groups[(b["what"], b["rec"]["form"], b["rec"]["fam"])].append(b)
+    mine = [b for b in mine if "form" in b["rec"]]
     for (what, form, fam), bs in sorted(groups.items()):
         r = bs[0]["rec"]
         ctx.violation("%s/%s/%s" % (what, form, fam),
@@ -206,6 +219,7 @@ def run(ctx, prop):
         "vectors": len(vecs), "tlc_vector_states": res["distinct"],
         "records_validated_by_tlc": nlines, "trace_validation_tlc_states": states,
         "framed_deliveries": stats["framed"], "fifo_deliveries": stats.get("fifo", 0), "events_emitted": stats["events"],
+        "audit_lines_with_and_without_newline": nl_lines,
         "predicates": preds, "binding_selftest_mutants_rejected": nself,
         "emitting_by_form": stats["emitting"],
         "exhaustive": False,
